@@ -922,14 +922,25 @@ impl TryFrom<&mut Peekable<Lexer>> for ParserNode {
                                 ));
                             }
                             PseudoType::Sgez => {
+                                // set if greater than or equal to zero:
+                                // slt rd, rs, x0 ; xori rd, rd, 1
+                                let rd = lex.get_reg()?;
                                 let rs1 = lex.get_reg()?;
-                                let label = lex.get_label()?;
-                                return Ok(ParserNode::new_branch(
-                                    With::new(BranchType::Bge, next_node.clone()),
-                                    With::new(Register::X0, next_node.clone()),
-                                    rs1,
-                                    label,
-                                    lex.raw_token,
+                                return Err(NeedTwoNodes(
+                                    Box::new(ParserNode::new_arith(
+                                        With::new(ArithType::Slt, next_node.clone()),
+                                        rd.clone(),
+                                        rs1,
+                                        With::new(Register::X0, next_node.clone()),
+                                        lex.raw_token.clone(),
+                                    )),
+                                    Box::new(ParserNode::new_iarith(
+                                        With::new(IArithType::Xori, next_node.clone()),
+                                        rd.clone(),
+                                        rd,
+                                        With::new(Imm::new(1), next_node.clone()),
+                                        lex.raw_token,
+                                    )),
                                 ));
                             }
                             PseudoType::Call => {
